@@ -5,7 +5,8 @@ from .. import families
 
 def run(tier):
     return famcheck.run(
-        "C05", tier, [("c05", families.c05(tier)), ("c05_narrow", families.c05_assign_narrow())],
+        "C05", tier, [("c05", families.c05(tier)), ("c05_narrow", families.c05_assign_narrow()),
+                      ("mixed", families.mixed(tier, 3000 if tier == "thorough" else 150, salt=5))],
         "all 11 assignment operators x 8 right-hand types x {32-bit rw register, 64-bit rw pair, int32/uint32/int64/uint64 locals, "
         "32-bit destination, 8-bit predicate} (exhaustive); if / if-else / else-if chains (6 condition shapes), for loops with constant "
         "trip counts 0..8, data-dependent trip counts, nested loops, bodies writing registers, locals and memory; all ordered pairs of 12 "
